@@ -174,7 +174,7 @@ fn mask_time(s: &str) -> String {
 pub fn props_of(case: &Value) -> Vec<&'static str> {
     if case["status"].as_str() != Some("ok") { return vec![]; }
     let slice = case["slice"].as_str().unwrap_or("");
-    if slice == "time" { return vec!["X01"]; }
+    if slice == "time" { return vec!["X01", "C05"]; }
     let mut v = vec![owner_of(slice), "C05", "C11", "C10"];
     if slice == "alias" { v.push("C08"); }
     if slice != "print" { v.push("C04"); }
@@ -209,8 +209,8 @@ pub fn replay(case: &Value) -> Vec<Obs> {
     {
         let got = match &query { Goal::ComplexGoal(u) => project(u), _ => Tm::Bad("query".into()) };
         let mut ids = vec![]; collect_ids(&got, &mut ids);
-        let k = { let mut d = ids.clone(); d.sort(); d.dedup(); d.len() };
-        let fresh = ids.iter().all(|i| *i >= 1 && *i <= k);
+        // (fresh: non-zero ids below the id counter; their numbering is the constructor's business)
+        let fresh = ids.iter().all(|i| *i >= 1 && *i <= get_var_id());
         let same_shape = canon(&[got.clone()]) == canon(&[number_by_name(&qt)]);
         if fresh && same_shape { obs.push(Obs::ok("C10", "make_query")); }
         else { obs.push(Obs::bad("C10", "make_query", format!("{} :: renamed query {}", what, show(&got)))); }
@@ -282,6 +282,36 @@ pub fn replay(case: &Value) -> Vec<Obs> {
         }
         match bad { None => obs.push(Obs::ok("C10", "get_rule-sequence")), Some(d) => obs.push(Obs::bad("C10", "get_rule-sequence", d)) }
     }
+    // C10: the id counter is process-global state -- a query built (renamed) on one thread and solved on another
+    // must not get clause variables that coincide with the query's own: same answers as on one thread
+    if (slice == "lists" || slice == "alias") && first_part_ok {
+        start_query();
+        let query_t = make_query(qterms.clone());                       // built on this thread
+        let prog_v = case["prog"].clone();
+        let n_ask = expect.len();
+        let args_t: Vec<Tm> = match &query_t { Goal::ComplexGoal(Unifiable::SComplex(v)) => v[1..].iter().map(project).collect(), _ => vec![] };
+        let got: Result<Vec<(bool, Vec<Tm>)>, ()> = std::thread::scope(|sc| {
+            sc.spawn(|| {
+                crate::syntax::install_panic_hook();
+                let kb2 = build_kb(&prog_v);
+                let sn = make_base_node(Rc::new(query_t.clone()), &kb2);      // solved on another one
+                let mut v = vec![];
+                for _ in 0..n_ask {
+                    match catch_unwind(AssertUnwindSafe(|| next_solution(Rc::clone(&sn)).map(|s| (*s).clone()))) {
+                        Ok(Some(ss)) => v.push((true, canon(&args_t.iter().map(|t| resolve(t, &ss)).collect::<Vec<_>>()))),
+                        Ok(None) => v.push((false, vec![])),
+                        Err(_) => return Err(()),
+                    }
+                }
+                Ok(v)
+            }).join().unwrap_or(Err(()))
+        });
+        capture::take();
+        let same = match &got { Ok(v) => v.len() == expect.len() && (0..expect.len()).all(|i| v[i].0 == exp_at(i).some && v[i].1 == exp_at(i).ans), Err(_) => false };
+        if same { obs.push(Obs::ok("C10", "query-built-on-another-thread")); }
+        else { obs.push(Obs::bad("C10", "query-built-on-another-thread", format!("{} :: reference {} / solved on a second thread {:?}", what, show_segs(&expect),
+                    got.map(|v| v.iter().map(|(s, a)| if *s { format!("({})", show_vec(a)) } else { "none".into() }).collect::<Vec<_>>().join(" "))))); }
+    }
     if slice == "alias" {
         if run.cycle { obs.push(Obs::bad("C08", "cycle", detail.clone())); } else { obs.push(Obs::ok("C08", "acyclic")); }
     }
@@ -335,7 +365,20 @@ pub fn replay(case: &Value) -> Vec<Obs> {
             start_query();
             let q2 = make_query(qterms.clone());
             let r2 = run_query(&kb2, &q2, expect.len());
-            let same = r2.panic.is_none() && r2.segs.len() == expect.len() && (0..expect.len()).all(|i| r2.segs[i] == exp_at(i));
+            let mut same = r2.panic.is_none() && r2.segs.len() == expect.len() && (0..expect.len()).all(|i| r2.segs[i] == exp_at(i));
+            // ... and what solve / solve_all would print (replace_variables on the query) is the same answer too
+            if same && slice != "time" {
+                for (i, r) in r2.raw.iter().enumerate().take(expect.len()) {
+                    if !r2.segs[i].some { continue; }
+                    match r {
+                        Some(Unifiable::SComplex(v)) => {
+                            let got = canon(&v[1..].iter().map(|u| flatten_tails(&project(u))).collect::<Vec<_>>());
+                            if got != r2.segs[i].ans { same = false; }
+                        }
+                        _ => { same = false; }
+                    }
+                }
+            }
             if !same { bad = Some(format!("variant {} {}  ?- {} :: reference {} / engine {}", vi + 1, show_prog(vp), show(&qt).replace("_0", ""), show_segs(&expect), show_segs(&r2.segs))); break; }
         }
         match bad { None => obs.push(Obs::ok("C11", "alpha-variants")), Some(d) => obs.push(Obs::bad("C11", "alpha-variants", d)) }
